@@ -737,7 +737,8 @@ hot(k) <-- m(k,v), if v >= 6;
 """, "stress par", bound=2, dom=2)
 
 prog("stress_rel", """
-rel edge(int,int) input; rel tgt(int); rel sw(int,int); rel low(int,int);
+rel edge(int,int) input; rel via(int,int) input; rel tgt(int); rel sw(int,int); rel low(int,int); rel two(int,int);
+two(x,z) <-- edge(x,y), via(y,z);
 tgt(y) <-- edge(_,y);
 sw(y,x) <-- edge(x,y);
 sw(x,y) <-- edge(x,y);
